@@ -45,6 +45,9 @@ def run(ctx: Ctx):
     from . import c11
 
     ctx.section(c11.run, ctx)
+    from .. import gatealg as _ga
+
+    ctx.section(_ga.check_involution, ctx, ('decompiler.', 'qcircuit.qcircuit'))
 
 
 def check_splice(ctx: Ctx, fi: FuncInfo):
